@@ -4,6 +4,10 @@
 # script inside it, verifies it compiles, runs kitcheck on the copy, removes it.
 set -u
 P=$1; shift
+# scratch verif dir (evidence of the runs on scratch copies must not overwrite /verif/evidence): created on demand
+KV=${KC_VERIF:-/tmp/kcmut-verif}
+if [ ! -d "$KV" ]; then mkdir -p "$KV/evidence"; ln -s /verif/kitcheck "$KV/kitcheck"; fi
+cp /verif/known_findings.json "$KV/known_findings.json" 2>/dev/null
 D=$(mktemp -d /tmp/kcmut.XXXXXX)
 rsync -a --exclude .git /repo/ "$D/"
 # optional: a fix not yet committed in /repo, applied to every scratch copy first (KC_PREFIX_PATCH=<diff>)
